@@ -58,6 +58,9 @@ def rule_execute_string(ctx):
 
             def run(I, dict_cursor=dict_cursor, remove_comments=remove_comments):
                 duck, conn, cur = make_session()
+                from ..execmodel import R
+                from ..values import Dct
+                conn.attrs["variables"].attrs[R().variables] = Dct({"V": Const("1")})  # a session variable is defined
                 sessions.append(conn)
                 cc = Ext("snowflake.connector.cursor.DictCursor" if dict_cursor else "snowflake.connector.cursor.SnowflakeCursor")
                 kw = {"cursor_class": cc}
@@ -71,8 +74,28 @@ def rule_execute_string(ctx):
                 undefined_var = any("re.search" in t and v for t, v in p.assumed)
                 if undefined_var:
                     continue
-                rendered = [t.origin[1].name if isinstance(t, Sym) and t.origin and t.origin[0] == "sql" else tagof(t) for t in texts]
-                dialects = [t.origin[2] if isinstance(t, Sym) and t.origin and t.origin[0] == "sql" and len(t.origin) > 2 else None for t in texts]
+                def rendering(v, depth=0):
+                    """the `<node>.sql(dialect=…)` value a text was made from (through variable inlining / binding, which keep the text)"""
+                    if isinstance(v, Sym) and v.origin and v.origin[0] == "sql":
+                        return v
+                    if depth > 6:
+                        return None
+                    for x in (getattr(v, "origin", None) or ()):
+                        for y in (x if isinstance(x, (list, tuple)) else [x]):
+                            if hasattr(y, "tag"):
+                                r_ = rendering(y, depth + 1)
+                                if r_ is not None:
+                                    return r_
+                    for y in getattr(v, "parts", ()):
+                        if hasattr(y, "tag"):
+                            r_ = rendering(y, depth + 1)
+                            if r_ is not None:
+                                return r_
+                    return None
+
+                rs = [rendering(t) for t in texts]
+                rendered = [r_.origin[1].name if r_ is not None else tagof(t) for r_, t in zip(rs, texts)]
+                dialects = [r_.origin[2] if r_ is not None and len(r_.origin) > 2 else None for r_ in rs]
                 news = [e for e in p.effects if e[0] == "new" and e[1].endswith("cursor.FakeSnowflakeCursor")]
                 if mode is None:
                     # the script reaches the statement splitter as given: only the parser knows where literals and comments end
